@@ -48,9 +48,15 @@ int main(int argc, char** argv) {
             std::ifstream f(argv[1], std::ios::binary);
             std::stringstream ss;
             ss << f.rdbuf();
-            dyn.LoadBinarySchema(ss.str());
-            // a long-lived object refreshes its schema: loading the same description again must change nothing
-            dyn.LoadBinarySchema(ss.str());
+            // the schema is loaded into a temporary object, refreshed once (loading the same description again must change
+            // nothing), COPIED into the long-lived one, and the temporary is destroyed before the copy is used: a copy must
+            // own everything it refers to
+            {
+                auto tmp = std::make_unique<fcp::dynamic::DynamicSchema>();
+                tmp->LoadBinarySchema(ss.str());
+                tmp->LoadBinarySchema(ss.str());
+                dyn = *tmp;
+            }
             have_dyn = true;
         } catch (const std::exception& e) {
             dyn_err = e.what();
